@@ -196,7 +196,7 @@ PROPS = {
         "n": {"quick": 60, "thorough": 1500},
         "race": True,
         "compare": "member",
-        "cone": ["Conc", "Close", "CloseDefs", "CloseLemmas", "CloseRun", "GeneratedSkel", "CloseSkel", "CloseSkelOk"] + ["CloseShard%02d" % i for i in range(13)],
+        "cone": ["Conc", "Close", "CloseDefs", "CloseLemmas", "CloseRun", "GeneratedSkel", "CloseSkel", "CloseSkelOk", "DecideLang", "StdCloseSrc"] + ["CloseShard%02d" % i for i in range(13)],
         "diagnose": "From Scrapli Require Import CloseSkel.\nFrom Coq Require Import String List.\nOpen Scope string_scope.\nEval vm_compute in show_failing.\n",
         "kernel_sample": {"quick": 4, "thorough": 12}, "kernel_maxlen": 1500,
         "retry_sigs": r"(C07:leak|C07:hang)",
@@ -258,7 +258,7 @@ PROPS = {
     },
     "C14": {
         "n": {"quick": 60, "thorough": 1500},
-        "cone": ["Bytes", "BytesLemmas", "Generated", "SshArgs", "SshArgsLemmas", "DecideLang", "GeneratedSkel", "DecideStd"],
+        "cone": ["Bytes", "BytesLemmas", "Generated", "SshArgs", "SshArgsLemmas", "DecideLang", "GeneratedSkel", "DecideStd", "StdSessionSrc"],
         "rule": "exhaustive table {system, standard, system with real OpenSSH} x {strict (default), not strict} x {known-hosts has the key / another key / "
                 "empty / not given} x {password, key, both}, then random ports/users/extra args/config file/netconf; system transport through a stand-in "
                 "ssh binary that records argv, standard transport against an in-process x/crypto/ssh server with a fresh host key (and a second server "
